@@ -72,6 +72,58 @@ func runC17(c *Ctx) {
 	c.rule("R-INDEX-GUARD", 2, "At/PtrAt: the index into the parameter slice satisfies 0 <= idx < len by a dominating successful range check")
 	c.rule("R-SWAP-ONLY", 2, "every element store into Partition's input is half of an exchange of two elements loaded before either store")
 	ruleAllocBounded(c, "slice", true)
+	ruleSizeGuard(c, "slice")
+	// a count or index is never bounded by the CAPACITY of an input: what lies between len and cap is not part of it
+	c.rule("R-NO-CAP-BOUND", 0, "no comparison in package slice bounds a count or index by cap(input) (floor 0: the unchanged tree has none)")
+	for _, fn := range P.PkgFuncs("slice") {
+		fn := fn
+		n := 0
+		allInstrs(fn, func(in ssa.Instruction) {
+			bo, ok := in.(*ssa.BinOp)
+			if !ok {
+				return
+			}
+			switch bo.Op {
+			case token.LSS, token.LEQ, token.GTR, token.GEQ, token.EQL, token.NEQ:
+			default:
+				return
+			}
+			for _, v := range []ssa.Value{bo.X, bo.Y} {
+				cp, ok := isBuiltinCall(v, "cap")
+				if !ok {
+					continue
+				}
+				// of a parameter, or of an element of a parameter (a slice of slices)
+				root := cp.Call.Args[0]
+				for d := 0; d < 4; d++ {
+					switch y := root.(type) {
+					case *ssa.UnOp:
+						root = y.X
+					case *ssa.IndexAddr:
+						root = y.X
+					case *ssa.Index:
+						root = y.X
+					case *ssa.Phi:
+						if len(y.Edges) > 0 {
+							root = y.Edges[0]
+						}
+					case *ssa.Extract:
+						root = y.Tuple
+					case *ssa.Next:
+						root = y.Iter
+					case *ssa.Range:
+						root = y.X
+					}
+				}
+				if _, isP := root.(*ssa.Parameter); !isP {
+					continue
+				}
+				n++
+				c.sawFn(fnName(fn))
+				c.bad("R-NO-CAP-BOUND", fmt.Sprintf("%s:compared with cap(%s) #%d", fnName(fn), ksym(cp.Call.Args[0]), n), bo.Pos(), "a count or index is tested against the capacity of an input slice instead of its length: elements between len and cap are not part of the slice, so the function reads or returns what is not there")
+			}
+		})
+	}
 
 	// ---- R-CLIP
 	for _, fname := range []string{"Partition", "Chunks", "Batches"} {
